@@ -3,10 +3,10 @@ import importlib
 
 # property -> list of (rule module, configs it needs in quick tier)
 PROPERTY_RULES = {
-    "C01": ["r_a10", "r_a9", "r_a8", "r_a2", "r_o3", "r_a12", "r_a13", "r_a4", "r_a16", "r_a17"],
-    "C02": ["r_a6", "r_a4", "r_a8", "r_a2", "r_o3", "r_e1", "r_b1", "r_a13", "r_a14", "r_a16", "r_a17"],
+    "C01": ["r_a10", "r_a9", "r_a8", "r_a2", "r_o3", "r_a12", "r_a13", "r_a4", "r_a16", "r_a17", "r_a19", "r_a18"],
+    "C02": ["r_a6", "r_a4", "r_a8", "r_a2", "r_o3", "r_e1", "r_b1", "r_a13", "r_a14", "r_a16", "r_a17", "r_a18"],
     "C03": ["r_a2", "r_a3", "r_a8", "r_a14"],
-    "C04": ["r_a8", "r_e1", "r_a6", "r_a2", "r_b1", "r_o3", "r_a4", "r_a17"],
+    "C04": ["r_a8", "r_e1", "r_a6", "r_a2", "r_b1", "r_o3", "r_a4", "r_a17", "r_a18"],
     "C05": ["r_b1", "r_o3", "r_a2", "r_a12"],
     "C06": ["r_b1", "r_o3", "r_a2"],
     "C07": ["r_a12", "r_a13", "r_a2", "r_a9", "r_a11", "r_a8"],
@@ -35,11 +35,11 @@ CLAUSES = {
            "content-preserving conversions, visit_seq keeps every element in order",
     "C01": "no API of Bytes can write its bytes; every place where the crate moves bytes or re-bases a view does it in the only correct order and with the "
            "right length/offset (copy-back before shrinking, offset re-applied, bytes before pointer); writes into shared storage are dominated by a "
-           "uniqueness test; no handle is disposed early or twice; slices/conversions rebuild (ptr, len) / Vec lengths from the view's own extent",
+           "uniqueness test; no handle is disposed early or twice; slices/conversions rebuild (ptr, len) / Vec lengths from the view's own extent; every handle -> Vec<u8> conversion returns a Vec of exactly the handle's length on every path (A19); the length of a BytesMut / slice cursor grows only over written bytes (A16); the Vec kept in a control block is never relied upon for its length (A9-iv)",
     "C04": "every write to BytesMut.{ptr,len,cap} is justified (bounded by the allocation, paired with its companions, bytes moved before the pointer, "
            "non-overlap guard before copy_nonoverlapping); split halves use one cut operand; merge needs all four adjacency conjuncts; Clone never shares; "
            "the reservation helper returns false only on paths without any state write and true only through a justified cap write; request arithmetic cannot wrap; "
-           "the reclaiming paths take the allocation over only behind an Acquire uniqueness test on a count that is kept by atomic read-modify-writes (A2, B1, O3); allocation extents are recomputed by one formula, also through rebuild helpers judged at their callers (A4); the vec-position bits of the data word agree with the pointer (A17)",
+           "the reclaiming paths take the allocation over only behind an Acquire uniqueness test on a count that is kept by atomic read-modify-writes (A2, B1, O3); allocation extents are recomputed by one formula, also through rebuild helpers judged at their callers (A4); the vec-position bits of the data word agree with the pointer (A17); every function that stores to len / cap leaves len <= cap on every path, and every true-returning path of the reservation helper ends with len + n <= cap (entailment over the state at the end of the path: A18, A8 numeric promise)",
     "C07": "no byte-buffer allocation and no byte copy is reachable from any zero-copy operation (vtable dispatch expanded), apart from verified exempt "
            "edges; clone returns the (ptr, len) it was given; slice/slice_ref re-base by exactly the range start; empty split_off/split_to "
            "results are built at self.ptr + at / self.ptr",
